@@ -32,7 +32,7 @@ ASSUMPTIONS = ["a message 'that is not a decodable SD notification' = wrong serv
                "for unicast-flag-clear messages only the foreign sender's own session entry may differ between twins"]
 FLOORS = {"quick": {"decoder_outcomes_checked": 50000, "class_parse": 10000, "class_ok": 10000, "class_unicode": 150,
                     "step_counted_calls": 5000, "live_sd_datagrams": 5000, "live_sd_subscription_episodes": 100, "live_service_datagrams": 2000,
-                    "twin_runs": 200, "twin_rejected_messages_bundled_behind_a_genuine_one": 50, "twin_injected_datagrams": 600, "twin_flagclear_runs": 40, "twin_flagclear_messages_inside_a_known_peers_session_sequence": 60,
+                    "twin_runs": 200, "twin_rejected_messages_bundled_behind_a_genuine_one": 50, "undecodable_datagrams_handed_to_an_endpoint_without_a_transport": 300, "twin_injected_datagrams": 600, "twin_flagclear_runs": 40, "twin_flagclear_messages_inside_a_known_peers_session_sequence": 60,
                     "twin_background_callbacks": 2000, "twin_background_transmissions": 4000}}
 
 
@@ -298,8 +298,43 @@ def build_put(h, collect=2.0 ** -8):
     return prot, tr, cb
 
 
+def passive_endpoints(ctx, rng, replay):
+    """endpoints that only listen - a monitor that registers listeners and never sends, or any endpoint in the window between
+    the creation of its first socket and the assignment of its transport attribute: no transport object yet; what cannot be
+    decoded is dropped there like anywhere else"""
+    import someip.sd as S
+    import someip.service as SV
+
+    class Sniffer(S.SOMEIPDatagramProtocol):
+        def message_received(self, someip_message, addr, multicast):
+            pass
+
+    class Svc(SV.SimpleService):
+        service_id = 0x2222
+        version_major = 1
+        version_minor = 0
+
+    for name, ep in (("discovery", S.ServiceDiscoveryProtocol(net.MCAST)), ("plain", Sniffer()), ("service", Svc(instance_id=1))):
+        for kind in ("garbage", "truncated", "bad_version"):
+            data = rejected_datagram(rng, kind)
+            mc = rng.random() < 0.5
+            src = rng.choice((PEER_A, ("2001:db8::5", 30490, 0, 0)))
+            try:
+                if rng.random() < 0.5:
+                    S.DatagramProtocolAdapter(ep, is_multicast=mc).datagram_received(data, src)
+                else:
+                    ep.datagram_received(data, src, mc)
+            except BaseException as exc:  # noqa: B036
+                ctx.violation("exception-leaves-datagram_received:" + type(exc).__name__,
+                              dict(endpoint=name + " (no transport assigned)", exc=repr(exc), datagram=data[:80]), replay)
+                return
+            ctx.count("undecodable_datagrams_handed_to_an_endpoint_without_a_transport")
+
+
 def live_sd(ctx, spec, rng):
     """fuzz corpus into datagram_received of a live SD endpoint"""
+    for _ in range(max(1, spec["n"] // 100)):
+        passive_endpoints(ctx, rng, dict(kind="whole-shard"))
     h = Harness(rng, draw_mode="rand", max_iterations=4000000)
     prot, tr, cb = build_put(h)
     escaped = []
